@@ -193,7 +193,12 @@ class Simple:
         self.words, self.redirs, self.line = words, redirs, line
 
     def text(self):
-        return " ".join(self.words + self.redirs)
+        """normalised text; the redirection `9>&-` (do not hand the lock descriptor to the child) is
+        not part of it, see nofd()"""
+        return " ".join(self.words + [r for r in self.redirs if r != "9>&-"])
+
+    def nofd(self):
+        return "9>&-" in self.redirs
 
 
 class Pipeline:
@@ -456,6 +461,11 @@ EXACT = {
     "cd $PSRC": ('.nop "cd $PSRC"', None, "PSRC"),
     "rm -rf $NEXT": (".rmrfNext", None, None),
     "mkdir $NEXT": (".mkdirNext", None, None),
+    # not in the script today; understood so that the model follows such an edit and the theorems decide
+    "rm -rf $NEXT/src": (".rmrfNextSrc", None, None),
+    "mkdir -p $NEXT": (".mkdirNextP", None, None),
+    "mkdir -p $PCODE": (".mkdirCode", None, None),
+    "ln -sfn ../../$PREV_POLICY/code $PCODE/.prev": (".mkPrevLink", None, None),
     "exec >$PLOG 2>&1": (".logToFile", None, None),
     "git clone --quiet --depth 2 $GIT_URL src": (".gitClone", "NEXT", None),
     "[ -e $POLICY_FILE ]": (".testPolicyFile", None, None),
@@ -532,8 +542,18 @@ def lean_str(s):
 
 
 class Compiler:
+    @staticmethod
+    def _only_nofd(lst):
+        try:
+            (ao, bg), = lst.items
+            c, = ao.first.cmds
+            return not bg and not ao.rest and isinstance(c, Simple) and c.redirs == ["9>&-"]
+        except ValueError:
+            return False
+
     def __init__(self, ast, fname):
         self.fname = fname
+        self.git_wrapper = None   # line of `git() { command git "$@" 9>&-; }` if the script defines it
         self.funcs = {}
         self.calls = {}
         self.top = []
@@ -542,12 +562,20 @@ class Compiler:
             if isinstance(node, FuncDef):
                 if node.name in self.funcs:
                     raise ShgenError("function %s defined twice" % node.name)
+                if node.name == "git":
+                    # the one wrapper that is understood: every git command of the main shell runs
+                    # without the lock descriptor
+                    body = render(node.body)
+                    if body != 'command git "$@"' or not self._only_nofd(node.body):
+                        raise ShgenError("%s line %d: function git() not understood: %r" % (fname, node.line, body))
+                    self.git_wrapper = node.line
+                    continue
                 self.funcs[node.name] = node
             else:
                 if bg:
                     raise ShgenError("background command in %s not understood" % fname)
                 self.top.append((ao, bg))
-        self.instrs = []          # dicts: line, cmd, ok, fail, vis, text, fn
+        self.instrs = []          # dicts: line, cmd, ok, fail, vis, inh, text, fn
         self.static_env = {}      # var -> scope chain (tuple of block ids) of its definition
         self.scope = []           # chain of enclosing command lists (function bodies continue the chain of their call site)
         self.fn_base = [0]        # len(scope) at entry of the function being inlined
@@ -605,8 +633,8 @@ class Compiler:
             self.cwd = new
         return cmd
 
-    def emit(self, line, cmd, text, vis=True):
-        self.instrs.append({"line": line, "cmd": cmd, "ok": None, "fail": None, "vis": vis, "text": text,
+    def emit(self, line, cmd, text, vis=True, inh=True):
+        self.instrs.append({"line": line, "cmd": cmd, "ok": None, "fail": None, "vis": vis, "inh": inh, "text": text,
                             "fn": self.inlining[-1] if self.inlining else "<top>"})
         if self.inlining:
             self.fn_lists.setdefault(self.inlining[-1], []).append(cmd)
@@ -675,7 +703,15 @@ class Compiler:
                 self.inlining.pop()
                 self.cwd = None                 # conservatively unknown after a call
                 return
-            c.slot = self.emit(c.line, self.classify_simple(c), c.text())
+            cmd = self.classify_simple(c)
+            if name == "git" and self.git_wrapper is not None:
+                # bash reports three main-shell commands: the call, the function entry, `command git "$@" 9>&-`
+                c.slot = self.emit(c.line, ".nop %s" % lean_str("call git"), c.text())
+                mid = self.emit(self.git_wrapper, ".nop %s" % lean_str("enter git"), c.text())
+                c.last = self.emit(self.git_wrapper, cmd, 'command ' + c.text() + ' 9>&-', inh=False)
+                c.pre = [c.slot, mid, c.last]
+                return
+            c.slot = self.emit(c.line, cmd, c.text() + (" 9>&-" if c.nofd() else ""), inh=not c.nofd())
             return
         if isinstance(c, Subshell):
             text = render(c)
@@ -786,24 +822,29 @@ class Compiler:
                 self.comp_list(f.body, k_ok, k_fail, dict(ctx, ret=(k_ok, k_fail)))
                 return
             text = c.text()
+            slot = c.slot
+            if hasattr(c, "pre"):
+                self.set_k(c.pre[0], c.pre[1], c.pre[1])
+                self.set_k(c.pre[1], c.pre[2], c.pre[2])
+                slot = c.last
             if text == "break":
                 if not ctx.get("loop"):
                     self.err(c.line, "break outside a loop")
                 t = ctx["loop"][1]
-                self.set_k(c.slot, t, t)
+                self.set_k(slot, t, t)
             elif text == "continue":
                 if not ctx.get("loop"):
                     self.err(c.line, "continue outside a loop")
                 t = ctx["loop"][0]
-                self.set_k(c.slot, t, t)
+                self.set_k(slot, t, t)
             elif text.startswith("return "):
                 if "ret" not in ctx:
                     self.err(c.line, "return outside a function")
-                self.set_k(c.slot, ctx["ret"][0], ctx["ret"][1])
+                self.set_k(slot, ctx["ret"][0], ctx["ret"][1])
             elif text.startswith("exit "):
-                self.set_k(c.slot, c.slot, c.slot)      # terminal
+                self.set_k(slot, slot, slot)      # terminal
             else:
-                self.set_k(c.slot, k_ok, k_fail)
+                self.set_k(slot, k_ok, k_fail)
             return
         if isinstance(c, Subshell):
             self.set_k(c.slot, k_ok, k_fail)
@@ -917,6 +958,21 @@ def wrapper_cmds(path, name):
 
 # ------------------------------------------------------------------------------- output
 
+EMPTY_GEN = """/- GENERATED by translate/shgen/shgen.py: nothing understood and no earlier program available. -/
+import NA.Model.NewPolicy
+namespace NA.Gen.NewPolicy
+open NA.C19
+def sourceSha256 : String := ""
+def understood : Bool := true
+def problem : String := ""
+def prog : Prog := []
+def funs : List (String × List Cmd) := []
+def wrapper : List (Nat × String) := []
+def sudoWrapper : List (Nat × String) := []
+end NA.Gen.NewPolicy
+"""
+
+
 def main():
     ap = argparse.ArgumentParser()
     ap.add_argument("-repo", default="/repo")
@@ -932,10 +988,23 @@ def main():
         wrap = wrapper_cmds(os.path.join(args.repo, "bin", "newpolicy"), "newpolicy")
         sudo = wrapper_cmds(os.path.join(args.repo, "bin", "sudo-newpolicy"), "sudo-newpolicy")
     except ShgenError as e:
+        # The script is not understood.  The tie is broken (`understood := false` makes the theorem
+        # `script_understood` of NA/Props/C19.lean false), but the driver still builds with the last
+        # program that was understood, so that the harness can go on and search the REAL tree for a
+        # failing schedule with its model-independent oracle.
         sys.stderr.write("shgen: %s\n" % e)
-        if os.path.exists(args.out):
-            os.unlink(args.out)     # no stale facts
-        return 1
+        last = args.out + ".lastgood"
+        if os.path.exists(last):
+            text = open(last).read()
+        else:
+            text = EMPTY_GEN
+        text = text.replace("def understood : Bool := true", "def understood : Bool := false")
+        text = text.replace('def problem : String := ""', "def problem : String := %s" % lean_str(str(e)))
+        os.makedirs(os.path.dirname(args.out), exist_ok=True)
+        with open(args.out, "w") as fh:
+            fh.write(text)
+        print("shgen: NOT UNDERSTOOD (%s); emitted the last understood program with understood := false" % e)
+        return 0
     digest = hashlib.sha256(src.encode()).hexdigest()
     o = []
     o.append("/- GENERATED by translate/shgen/shgen.py from bin/newpolicy.sh, bin/newpolicy, bin/sudo-newpolicy — do not edit. -/")
@@ -944,12 +1013,16 @@ def main():
     o.append("open NA.C19")
     o.append("")
     o.append("def sourceSha256 : String := %s" % lean_str(digest))
+    o.append("/-- false: shgen did not understand the script; `prog` is then the last program it understood. -/")
+    o.append("def understood : Bool := true")
+    o.append('def problem : String := ""')
     o.append("")
     o.append("/-- bin/newpolicy.sh: one instruction per main-shell simple command. -/")
     o.append("def prog : Prog := [")
     for n, ins in enumerate(instrs):
-        o.append("  /- %3d %-16s -/ ⟨%d, %s, %d, %d, %s⟩%s   -- %s" % (
+        o.append("  /- %3d %-16s -/ ⟨%d, %s, %d, %d, %s, %s⟩%s   -- %s" % (
             n, ins["fn"], ins["line"], ins["cmd"], ins["ok"], ins["fail"], "true" if ins["vis"] else "false",
+            "true" if ins["inh"] else "false",
             "," if n + 1 < len(instrs) else "", ins["text"].replace("\n", " ")))
     o.append("]")
     o.append("")
@@ -972,6 +1045,12 @@ def main():
     if old != text:
         with open(args.out, "w") as fh:
             fh.write(text)
+    if os.path.realpath(args.repo) == "/repo":
+        # remember what the unchanged tree translates to (fallback model for trees that are not understood)
+        lg = args.out + ".lastgood"
+        if not os.path.exists(lg) or open(lg).read() != text:
+            with open(lg, "w") as fh:
+                fh.write(text)
     if args.dump:
         for n, ins in enumerate(instrs):
             print("%3d L%-3d %-28s ok=%-3d fail=%-3d %s %s" % (n, ins["line"], ins["cmd"], ins["ok"], ins["fail"],
